@@ -20,6 +20,69 @@ Theorem C10_needed_spec : forall idx nullid done first last,
 Proof. exact needed_spec. Qed.
 Print Assumptions C10_needed_spec.
 
+(* indexRange: for a non-empty buffer the interval first..last contains every chunk that overlaps
+   [off, off+len) (off >= 0, no uint64 wrap). *)
+Theorem C10_index_range_covers : forall idx off len,
+  tiles_from 0 idx -> 0 <= off -> (1 <= len)%nat -> off + Z.of_nat len < two64 ->
+  exists first last, index_range idx off (Z.of_nat len) = Some (first, last) /\
+    forall j r, nth_error idx j = Some r -> Z.of_N (r_start r) < off + Z.of_nat len -> off < r_end r ->
+                first <= Z.of_nat j <= last.
+Proof. exact index_range_covers. Qed.
+Print Assumptions C10_index_range_covers.
+
+(* sparse_inv.  A schedule is any list of labels: one atomic step of goroutine k (reader, preload worker or
+   WriteState caller), a new request handed to a goroutine (creating it if needed), or a restart of the process at
+   any moment -- a kill included -- with any combination of {state file readable or not, cache file kept / absent /
+   resized, preload}.  [step_paired] only excludes loading a state file that outlived a lost cache file (the
+   property's premise: the cache file together with ITS saved state).  For EVERY such schedule, every fault pattern
+   of a sound store and any number of goroutines the loader invariant holds (or H collides): a set done bit or a null
+   chunk means the range holds the chunk; the saved state never claims more than the file holds; every completed
+   ReadAt returned the blob's bytes. *)
+Theorem C10_sparse_inv : forall H idx blob maxsz store sched,
+  index_describes H idx blob -> store_sound H store ->
+  let nullid := snd (new_null_chunk H maxsz) in
+  loader_inv idx nullid blob (run (step_paired idx nullid store) sched (init idx)) \/ Collision H.
+Proof. exact sparse_inv. Qed.
+Print Assumptions C10_sparse_inv.
+
+(* sparse_read_sound.  Spelled out for one ReadAt: whatever happened before and concurrently (interleavings,
+   transient store failures, WriteState at any point, restarts, preload), a ReadAt(len, off) that reports success
+   (nil or io.EOF) returned exactly blob[off, off+n) with n = min(len, L-off) and io.EOF iff n < len -- never the
+   zeros of an unpopulated range. *)
+Theorem C10_sparse_read_sound : forall H idx blob maxsz store sched off len d eof,
+  index_describes H idx blob -> store_sound H store ->
+  let nullid := snd (new_null_chunk H maxsz) in
+  In (RqRead off len, ROk d eof) (s_log (run (step_paired idx nullid store) sched (init idx))) ->
+  off + Z.of_nat len < two64 ->
+  (0 <= off /\ d = slice blob (Z.to_nat off) (length d) /\
+   length d = Nat.min len (length blob - Z.to_nat off) /\ eof = (length d <? len)%nat) \/ Collision H.
+Proof. exact sparse_read_sound. Qed.
+Print Assumptions C10_sparse_read_sound.
+
+(* sparse_retry, step level: a failed GetChunk leaves the done bits and the file unchanged, frees the chunk's mutex and
+   gives a reader the store's error.  With C10_needed_spec (a chunk that is neither done nor null is on the load list
+   of every later read that covers it) and C10_sparse_read_sound: the next read of that range calls the store again
+   or fails.  (In the old sync.Once code the second caller skipped the load; see known-findings.d/C10.json.) *)
+Theorem C10_sparse_failed_load : forall idx nullid store s k th i todo rq q c,
+  s_crashed s = false -> nth_error (s_threads s) k = Some th ->
+  pc th = Some (PFetch i todo) -> queue th = rq :: q ->
+  store (s_calls s) (r_id (nth i idx row0)) = SFail c ->
+  exists s', step idx nullid store s (LThread k) = Some s' /\
+    s_done s' = s_done s /\ s_file s' = s_file s /\ s_calls s' = S (s_calls s) /\
+    s_mutex s' = set_nth (s_mutex s) i false /\
+    nth_error (s_threads s') k = Some (mkthread q None) /\
+    s_log s' = (rq, match rq with RqRead _ _ => RErr (XStore c) | _ => RDone end) :: s_log s.
+Proof. exact sparse_failed_load. Qed.
+Print Assumptions C10_sparse_failed_load.
+
+(* No index-out-of-range panic for any schedule in which the index has at least one chunk and no ReadAt has an
+   empty buffer.  (Both conditions are needed: C10_zero_length_read_at_eof_panics, C10_empty_index_read_panics.) *)
+Theorem C10_sparse_no_panic : forall idx nullid store sched,
+  tiles_from 0 idx -> idx <> [] ->
+  s_crashed (run (step_nonzero idx nullid store) sched (init idx)) = false.
+Proof. exact sparse_no_panic. Qed.
+Print Assumptions C10_sparse_no_panic.
+
 (* ---- concrete runs of the model (vm_compute): non-vacuity and the findings ---- *)
 Definition ex_H (b : bytes) : id := fold_left (fun a x => (a * 257 + x + 1)%N) b 0%N.
 Definition ex_blob : bytes := [5; 6; 0; 0; 0; 0; 9]%N.
@@ -34,6 +97,15 @@ Definition ex_store : store_t := fun k i =>
        | None => SFail 1
        end.
 Definition ex_run (sched : list label) : sstate := run (step ex_idx ex_null ex_store) sched (init ex_idx).
+Example C10_example_describes : index_describes ex_H ex_idx ex_blob.
+Proof. repeat split; repeat constructor. Qed.
+Example C10_example_sound : store_sound ex_H ex_store.
+Proof.
+  intros k i d. unfold ex_store. destruct (k =? 0)%nat; [discriminate|].
+  destruct (find (fun r => N.eqb (r_id r) i) ex_idx) as [r|] eqn:E; [|discriminate].
+  intros E2. inversion E2; subst d. apply find_some in E. destruct E as [Hin Hid]. apply N.eqb_eq in Hid. subst i.
+  cbn in Hin. repeat (destruct Hin as [<-|Hin]; [vm_compute; reflexivity|]). contradiction.
+Qed.
 Definition T0x (k : nat) : list label := repeat (LThread 0) k.
 
 (* A failed load is retried: the first ReadAt fails with the store's error, the second returns the blob's bytes
@@ -64,3 +136,39 @@ Example C10_stale_state_returns_zeros :
                     LSubmit 0 (RqRead 0 7)] ++ T0x 3) in
   hd_error (s_log s) = Some (RqRead 0 7, ROk [0; 0; 0; 0; 0; 0; 0]%N false) /\ s_stale s = true.
 Proof. vm_compute. split; reflexivity. Qed.
+
+(* ... and that restart is exactly what [step_paired] excludes (so C10_sparse_read_sound does not cover it). *)
+Example C10_stale_load_is_excluded :
+  let s := ex_run ([LSubmit 0 (RqRead 0 7)] ++ T0x 12 ++ [LSubmit 0 (RqRead 0 7)] ++ T0x 12 ++ [LSubmit 0 RqSave; LThread 0] ++
+                   [LRestart (mkmode true CAbsent false)]) in
+  step_paired ex_idx ex_null ex_store s (LRestart (mkmode true CKeep false)) = None /\
+  step_paired ex_idx ex_null ex_store s (LRestart (mkmode false CKeep false)) <> None.
+Proof. vm_compute. split; [reflexivity|discriminate]. Qed.
+
+(* Two readers on the same range, the first parked between WriteAt and done.Set while the second arrives, a
+   WriteState in between (the state must not yet contain the chunk), then a kill and a restart on cache + state:
+   both reads and the read after the restart return the blob's bytes; chunk 3 is fetched exactly once per incarnation
+   in which it was not recorded. *)
+Example C10_example_concurrent :
+  let s := ex_run ([LSubmit 0 (RqRead 6 1); LSubmit 1 (RqRead 5 2)] ++ T0x 1 (* scan *) ++ [LThread 1 (* scan *)] ++
+                   T0x 1 (* lock 3: blocked? no, free *) ++ T0x 1 (* fetch fails (call 0) *) ++
+                   [LSubmit 0 (RqRead 6 1)] ++ T0x 4 (* scan, lock, fetch, write: parked before Set *) ++
+                   [LThread 1 (* blocked on mutex 3 *); LSubmit 2 RqSave; LThread 2] ++
+                   [LRestart (mkmode true CKeep false); LSubmit 0 (RqRead 6 1)] ++ T0x 6) in
+  s_log s = [(RqRead 6 1, ROk [9]%N false); (RqSave, RDone); (RqRead 6 1, RErr (XStore 2))] /\
+  s_saved s = Some [false; false; false; false] /\ s_calls s = 3%nat.
+Proof. vm_compute. repeat split. Qed.
+
+(* sparse_once_refuted: the model of the loader as it was before the fix (Model/SparseOnce.v, sync.Once instead of the
+   per-chunk mutex) violates the property: one chunk, the store fails once, read twice -- the second ReadAt reports
+   success and returns the zeros of the unpopulated cache file.  (bin/check reproduces this on the code with the fix
+   commit reverted: class sparse/stale-zeros.) *)
+From DS Require Import Model.SparseOnce.
+Example C10_sparse_once_refuted :
+  exists sched, exists d eof,
+    hd_error (s_log (fst (run (step_once ex_idx ex_null ex_store) sched (init_once ex_idx)))) = Some (RqRead 0 2, ROk d eof) /\
+    d <> slice ex_blob 0 2.
+Proof.
+  exists ([LSubmit 0 (RqRead 0 2)] ++ T0x 4 ++ [LSubmit 0 (RqRead 0 2)] ++ T0x 4), [0; 0]%N, false.
+  vm_compute. split; [reflexivity|discriminate].
+Qed.
